@@ -1,0 +1,32 @@
+// Copyright JAMF Software, LLC
+
+//go:build verif
+
+package table
+
+import (
+	"time"
+
+	"github.com/lni/dragonboat/v4"
+)
+
+// Verification-only export shims (build tag verif). They add no behaviour: they make the
+// unexported reconciliation entry points callable from the external verification harness.
+
+// VerifDiffTables exposes diffTables.
+func VerifDiffTables(tables map[string]Table, raftInfo []dragonboat.ShardInfo) (map[uint64]Table, []uint64) {
+	return diffTables(tables, raftInfo)
+}
+
+// VerifReconcile runs one reconcile pass.
+func (m *Manager) VerifReconcile() error { return m.reconcile() }
+
+// VerifCleanup runs one cleanup pass.
+func (m *Manager) VerifCleanup() error { return m.cleanup() }
+
+// VerifSetIntervals overrides the timer periods (must be called before Start).
+func (m *Manager) VerifSetIntervals(reconcile, cleanup, grace time.Duration) {
+	m.reconcileInterval = reconcile
+	m.cleanupInterval = cleanup
+	m.cleanupGracePeriod = grace
+}
